@@ -626,6 +626,8 @@ def rf63(run):
             rets = [x for x in h.walk() if x['k'] == 'ReturnStmt']
             casts = []
             direct = False
+            if not (len(rets) == 1 and len(F.kids(h.body)) == 1):
+                raise F.AnalysisBroken('builtin helper %s of %s is not a single `return (T) arg;`: conversion path not evaluated' % (h.name, lab))
             if len(rets) == 1 and len(F.kids(h.body)) == 1:
                 e = rets[0]['c'][0]
                 while e['k'] in F.CASTS or e['k'] == 'ParenExpr':
